@@ -65,6 +65,128 @@ theorem C20.size_policy (s : St) (n : Nat) (d : DataID) (ps : List Point) (hp : 
   · intro h
     exact accept_nocut s d ps (by rw [hf]; exact decide_eq_false (by omega))
 
+/-- the payload actually sitting in the send buffer -/
+def bufPayloadOf (buf : List (DataID × List Point)) : Nat := (buf.map (fun e => payloadLen e.2)).sum
+
+theorem payloadLen_append (a b : List Point) : payloadLen (a ++ b) = payloadLen a + payloadLen b := by
+  simp [payloadLen, List.map_append, List.sum_append]
+
+theorem bufPayloadOf_bufAdd (buf : List (DataID × List Point)) (d : DataID) (ps : List Point) :
+    bufPayloadOf (bufAdd buf d ps) = bufPayloadOf buf + payloadLen ps := by
+  induction buf with
+  | nil => simp [bufAdd, bufPayloadOf]
+  | cons e r ih =>
+    obtain ⟨d', ps'⟩ := e
+    unfold bufAdd
+    split
+    · simp only [bufPayloadOf, List.map_cons, List.sum_cons, payloadLen_append]; omega
+    · have := ih
+      simp only [bufPayloadOf, List.map_cons, List.sum_cons] at this ⊢
+      omega
+
+theorem cut_payload (s : St) (h : s.bufPayload = bufPayloadOf s.buf) : (cut s).bufPayload = bufPayloadOf (cut s).buf := by
+  unfold cut
+  split
+  · exact h
+  · simp [bufPayloadOf]
+
+theorem payload_step (s : St) (e : Ev) (h : s.bufPayload = bufPayloadOf s.buf) :
+    (step s e).bufPayload = bufPayloadOf (step s e).buf := by
+  have hresult : ∀ (st : St) (q c : Nat), (result st q c).bufPayload = st.bufPayload ∧ (result st q c).buf = st.buf := by
+    intro st q c
+    simp only [result]
+    split <;> exact ⟨rfl, rfl⟩
+  have hfold : ∀ (rs : List (Nat × Nat)) (st : St),
+      (rs.foldl (fun st r => result st r.1 r.2) st).bufPayload = st.bufPayload ∧
+      (rs.foldl (fun st r => result st r.1 r.2) st).buf = st.buf := by
+    intro rs
+    induction rs with
+    | nil => intro st; exact ⟨rfl, rfl⟩
+    | cons r rs ih =>
+      intro st
+      obtain ⟨h1, h2⟩ := ih (result st r.1 r.2)
+      obtain ⟨h3, h4⟩ := hresult st r.1 r.2
+      exact ⟨by rw [List.foldl_cons, h1, h3], by rw [List.foldl_cons, h2, h4]⟩
+  cases e with
+  | accept d ps =>
+    show (accept s d ps).bufPayload = bufPayloadOf (accept s d ps).buf
+    have h1 : (addBuf s d ps).bufPayload = bufPayloadOf (addBuf s d ps).buf := by
+      show s.bufPayload + payloadLen ps = bufPayloadOf (bufAdd s.buf d ps)
+      rw [bufPayloadOf_bufAdd, h]
+    rw [accept_eq]
+    split
+    · exact cut_payload _ h1
+    · exact h1
+  | tick =>
+    show (tick s).bufPayload = bufPayloadOf (tick s).buf
+    unfold tick
+    split
+    · exact cut_payload s h
+    · exact h
+  | flush => exact cut_payload s h
+  | ack rs als =>
+    show (ack s rs als).bufPayload = bufPayloadOf (ack s rs als).buf
+    unfold ack
+    obtain ⟨h1, h2⟩ := hfold rs { s with rev := learn s.rev als }
+    rw [h1, h2]; exact h
+  | closeFlush => exact cut_payload s h
+  | closeRequest => exact h
+
+/-- THE SIZE COUNTER IS THE BUFFER: after any history of writes, ticks, explicit flushes, acks and closes the payload counter the
+    size policy is asked about equals the payload of what is in the send buffer — nothing that was cut already (by a size
+    trigger, a tick, an explicit Flush or Close) still counts -/
+theorem C20.payload_counter_is_buffer (p : Policy) (rev : List (DataID × Nat)) (evs : List Ev) :
+    (run (init p rev) evs).bufPayload = bufPayloadOf (run (init p rev) evs).buf := by
+  have : ∀ (evs : List Ev) (s : St), s.bufPayload = bufPayloadOf s.buf → (run s evs).bufPayload = bufPayloadOf (run s evs).buf := by
+    intro evs
+    induction evs with
+    | nil => intro s h; exact h
+    | cons e r ih => intro s h; exact ih _ (payload_step s e h)
+  exact this evs _ (by simp [init, bufPayloadOf])
+
+/-- … hence, over whole histories: a write is cut exactly when the payload in the buffer plus its own exceeds the threshold -/
+theorem C20.size_policy_of_buffer (p : Policy) (rev : List (DataID × Nat)) (evs : List Ev) (n : Nat) (d : DataID) (ps : List Point)
+    (hp : p = .size n ∨ p = .intervalOrSize n) :
+    let s := run (init p rev) evs
+    (bufPayloadOf s.buf + payloadLen ps > n → (accept s d ps).buf = [] ∧ (accept s d ps).sent.length = s.sent.length + 1) ∧
+    (bufPayloadOf s.buf + payloadLen ps ≤ n → (accept s d ps).sent = s.sent ∧ (accept s d ps).buf = bufAdd s.buf d ps) := by
+  intro s
+  have hpol : s.policy = p := by
+    have : ∀ (evs : List Ev) (st : St), (run st evs).policy = st.policy := by
+      intro evs
+      induction evs with
+      | nil => intro st; rfl
+      | cons e r ih =>
+        intro st
+        show (run (step st e) r).policy = st.policy
+        rw [ih]
+        cases e with
+        | accept d ps => exact accept_policy st d ps
+        | tick => show (tick st).policy = st.policy; unfold tick; split <;> first | exact cut_policy st | rfl
+        | flush => exact cut_policy st
+        | ack rs als =>
+          show (ack st rs als).policy = st.policy
+          unfold ack
+          have hf : ∀ (rs : List (Nat × Nat)) (x : St), (rs.foldl (fun st r => result st r.1 r.2) x).policy = x.policy := by
+            intro rs
+            induction rs with
+            | nil => intro x; rfl
+            | cons r rs ih2 =>
+              intro x
+              rw [List.foldl_cons, ih2]
+              simp only [result]; split <;> rfl
+          rw [hf]
+        | closeFlush => exact cut_policy st
+        | closeRequest => rfl
+    exact this evs (init p rev)
+  have hc := C20.payload_counter_is_buffer p rev evs
+  have hs := C20.size_policy s n d ps (by rw [hpol]; exact hp)
+  rw [show s.bufPayload = bufPayloadOf s.buf from hc] at hs
+  exact ⟨fun h => ⟨(hs.1 h).1, (hs.1 h).2.1⟩, hs.2⟩
+
+example : let s := run (init (.size 10) []) [.accept 1 [⟨1, [1,2,3,4,5,6]⟩], .flush, .accept 1 [⟨2, [1,2,3,4,5,6]⟩]]
+    (s.sent.length, s.bufPayload, bufPayloadOf s.buf) = (1, 6, 6) := by decide
+
 /-- IMMEDIATE policy: every write is cut on its own -/
 theorem C20.immediate_policy (rev : List (DataID × Nat)) (evs : List Ev) (d : DataID) (ps : List Point) :
     let s := run (init .immediate rev) evs
